@@ -9,7 +9,84 @@ use refmodel::Q;
 
 type V = ValueType;
 
+const CONV_W: [&[f64]; 4] = [&[1.0, 2.0, 3.0], &[0.5, 1.0, 2.0, 1.0], &[1.0, 1.0], &[2.0, -1.0, 1.0]];
+fn vol_at(t: u64) -> V {
+	[1.0, 4.0, 2.0][(t % 3) as usize]
+}
+/// VWMA fed (price, volume) with a fixed volume cycle, seen as a value -> value subject
+struct VwmaSubj {
+	inner: Box<dyn Subject>,
+	t: u64,
+}
+impl Subject for VwmaSubj {
+	fn next(&mut self, i: &In) -> Out {
+		self.t += 1;
+		self.inner.next(&In::P(i.v(), vol_at(self.t)))
+	}
+	fn peek(&self) -> Option<Out> {
+		self.inner.peek()
+	}
+	fn boxed_clone(&self) -> Box<dyn Subject> {
+		Box::new(VwmaSubj { inner: self.inner.boxed_clone(), t: self.t })
+	}
+	fn debug_key(&self) -> String {
+		self.inner.debug_key()
+	}
+	fn to_json(&self) -> Result<String, String> {
+		self.inner.to_json()
+	}
+	fn from_json(&self, s: &str) -> Result<Box<dyn Subject>, String> {
+		self.inner.from_json(s)
+	}
+}
+#[derive(Clone)]
+struct VwmaVV {
+	r: refmodel::methods::Vwma,
+	t: u64,
+}
+impl RefVV for VwmaVV {
+	fn next(&mut self, x: f64) -> Q {
+		self.t += 1;
+		self.r.step(x, vol_at(self.t) as f64)
+	}
+	fn stepq(&mut self, x: Q) -> Q {
+		self.next(x.v)
+	}
+	fn box_clone(&self) -> Box<dyn RefVV> {
+		Box::new(self.clone())
+	}
+}
+/// kinds: the 15 of `MA`, plus "conv0".."conv3" (weight vectors CONV_W) and "vwma"
+fn mk_ref(kind: &str, n: usize, v0: f64) -> Box<dyn RefVV> {
+	if let Some(i) = kind.strip_prefix("conv") {
+		return Box::new(refmodel::methods::conv(CONV_W[i.parse::<usize>().unwrap()].to_vec(), v0));
+	}
+	if kind == "vwma" {
+		return Box::new(VwmaVV { r: refmodel::methods::Vwma::new(n, v0, vol_at(0) as f64), t: 0 });
+	}
+	ma_ref(kind, n, v0)
+}
+fn kind_nonneg(kind: &str) -> bool {
+	match kind {
+		"conv0" | "conv1" | "conv2" | "vwma" => true,
+		"conv3" => false,
+		k => ma_nonneg(k),
+	}
+}
 fn mk(kind: &str, n: usize, v0: V) -> Option<Box<dyn Subject>> {
+	if let Some(i) = kind.strip_prefix("conv") {
+		let w: Vec<V> = CONV_W[i.parse::<usize>().unwrap()].iter().map(|x| *x as V).collect();
+		return match catch(|| (spec("Conv").ctor)(&Params::W(w), &In::V(v0))) {
+			Ok(Ok(s)) => Some(s),
+			_ => None,
+		};
+	}
+	if kind == "vwma" {
+		return match catch(|| (spec("VWMA").ctor)(&Params::N(n as PeriodType), &In::P(v0, vol_at(0)))) {
+			Ok(Ok(s)) => Some(Box::new(VwmaSubj { inner: s, t: 0 })),
+			_ => None,
+		};
+	}
 	let sp = spec("MAInstance");
 	match catch(|| (sp.ctor)(&Params::Ma(ma_of(kind, n as PeriodType)), &In::V(v0))) {
 		Ok(Ok(s)) => Some(s),
@@ -59,12 +136,12 @@ impl System for AffSys {
 		for &n in &self.ns {
 			for &v0 in &self.v0s {
 				let Some(imp) = mk(self.kind, n, v0) else { continue };
-				let base = Inst { imp, rf: ma_ref(self.kind, n, v0 as f64) };
+				let base = Inst { imp, rf: mk_ref(self.kind, n, v0 as f64) };
 				let mut maps = vec![];
 				for (a, b) in MAPS {
 					let m0 = (a * v0 as f64 + b) as V;
 					let Some(imp) = mk(self.kind, n, m0) else { continue };
-					maps.push(Inst { imp, rf: ma_ref(self.kind, n, m0 as f64) });
+					maps.push(Inst { imp, rf: mk_ref(self.kind, n, m0 as f64) });
 				}
 				v.push((AffState { base, maps, lo: v0 as f64, hi: v0 as f64, mag: (v0 as f64).abs(), prev: v0, first_dev: None, last_dev: None, depth: 0, n, recent: vec![v0; n + 1] }, format!("{}-{n} v0={v0:?}", self.kind)));
 			}
@@ -126,7 +203,7 @@ impl System for AffSys {
 		let q = n.base.rf.next(xf);
 		let mut exempt = !q.is_defined();
 		// range preservation (non-negative weights)
-		if ma_nonneg(kind) && q.is_defined() {
+		if kind_nonneg(kind) && q.is_defined() {
 			let r = q.r + 4.0 * eps() * n.mag;
 			if out < n.lo - r || out > n.hi + r {
 				return Step::Violation(Failure::new(
@@ -200,9 +277,9 @@ impl System for SupSys {
 				let (Some(ix), Some(iy), Some(is)) = (mk(self.kind, n, a), mk(self.kind, n, b), mk(self.kind, n, a + b)) else { continue };
 				v.push((
 					SupState {
-						x: Inst { imp: ix, rf: ma_ref(self.kind, n, a as f64) },
-						y: Inst { imp: iy, rf: ma_ref(self.kind, n, b as f64) },
-						s: Inst { imp: is, rf: ma_ref(self.kind, n, (a + b) as f64) },
+						x: Inst { imp: ix, rf: mk_ref(self.kind, n, a as f64) },
+						y: Inst { imp: iy, rf: mk_ref(self.kind, n, b as f64) },
+						s: Inst { imp: is, rf: mk_ref(self.kind, n, (a + b) as f64) },
 					},
 					format!("{}-{n} v0=({a:?},{b:?})", self.kind),
 				));
@@ -327,7 +404,7 @@ fn main() {
 		// every length, deviation-bounded
 		let mut ns: Vec<usize> = (min..=maxn).collect();
 		if !thorough {
-			ns.retain(|n| *n <= 16 || n % 8 == 0 || *n + 2 >= maxn);
+			ns.retain(|n| *n <= 8 || n % 32 == 0 || *n + 1 >= maxn);
 		}
 		h.go(
 			&AffSys { name: format!("{kind}/affine+range/deviation"), kind, ns, v0s: vec![1.0, -3.0], alphabet: vec![0.0, 1.0, -3.0, alpha::big() as V, 1.7], flat: true },
@@ -344,6 +421,19 @@ fn main() {
 			h.go(&SupSys { name: format!("{kind}/superposition/depth"), kind, ns: small.clone(), alphabet: pairs }, &Limits::depth(if thorough { 5 } else { 4 }).wall_secs(300), true);
 			h.go(&ImpSys { kind, ns: (min..=maxn).collect() }, &Limits::closure().wall_secs(300), true);
 		}
+	}
+	// Conv (4 weight vectors, one with a negative weight) and VWMA (fixed volume cycle)
+	for kind in ["conv0", "conv1", "conv2", "conv3", "vwma"] {
+		let ns: Vec<usize> = if kind == "vwma" { if thorough { vec![1, 2, 3, 4, 5] } else { vec![2, 3] } } else { vec![1] };
+		h.go(&AffSys { name: format!("{kind}/affine+range/depth-arith"), kind, ns: ns.clone(), v0s: vec![1.0, -3.0], alphabet: arith[..4].to_vec(), flat: false }, &Limits::depth(if thorough { 6 } else { 5 }).wall_secs(300), true);
+		h.go(&AffSys { name: format!("{kind}/affine+range/depth-round"), kind, ns: vec![ns[ns.len() / 2]], v0s: vec![1.0], alphabet: if thorough { alpha::v_round() } else { alpha::v_round3() }, flat: false }, &Limits::depth(if thorough { 8 } else { 7 }).wall_secs(300), true);
+		let mut pairs = vec![];
+		for a in &arith[..4] {
+			for b in &arith[..4] {
+				pairs.push((*a, *b));
+			}
+		}
+		h.go(&SupSys { name: format!("{kind}/superposition/depth"), kind, ns, alphabet: pairs }, &Limits::depth(if thorough { 5 } else { 4 }).wall_secs(300), true);
 	}
 	h.run.assume("a linear time-invariant filter is determined by its impulse response; superposition + impulse response for all n characterise the linear kinds up to rounding");
 	h.finish();
